@@ -36,7 +36,7 @@ inline const std::vector<std::string> &special_values(size_t hugechars) {
 
 // all structure-aware text mutations of v; `lead` = number of leading fields that get the full treatment
 inline void text_mutations(const std::string &v, const std::string &delims, SplitMix64 &g, size_t lead, size_t sampled,
-	size_t ntrunc, size_t nrand, size_t hugechars, std::vector<Mut> &out)
+	size_t ntrunc, size_t nrand, size_t hugechars, std::vector<Mut> &out, size_t nmulti = 0)
 {
 	std::vector<Field> f = split_fields(v, delims);
 	const std::vector<std::string> &sp = special_values(hugechars);
@@ -63,6 +63,33 @@ inline void text_mutations(const std::string &v, const std::string &delims, Spli
 			size_t b2 = f[i + 1].b, e2 = f[i + 1].e;
 			out.push_back({ v.substr(0, b) + v.substr(b2, e2 - b2) + v.substr(e, b2 - e) + v.substr(b, e - b) + v.substr(e2), tag + ":swap" });
 		}
+	}
+	// simultaneous corruption of two or three fields (sign flip, zero, one, huge, copy of another field, empty, deletion):
+	// defects that need an inconsistent COMBINATION (negative order + non-invertible element, ...) are out of reach of single-field mutation
+	for (size_t k = 0; k < nmulti && f.size() >= 2; k++) {
+		size_t cnt = 2 + g.below(2); std::vector<size_t> pick;
+		for (size_t t = 0; t < cnt * 3 && pick.size() < cnt; t++) {
+			size_t i = (g.below(4) && lead) ? g.below(std::min(lead, f.size())) : g.below(f.size());
+			if (std::find(pick.begin(), pick.end(), i) == pick.end()) pick.push_back(i);
+		}
+		std::sort(pick.begin(), pick.end());
+		std::string r, d = "multi"; size_t at = 0;
+		for (size_t i : pick) {
+			r += v.substr(at, f[i].b - at); std::string c = v.substr(f[i].b, f[i].e - f[i].b), n; unsigned op = g.below(9);
+			switch (op) {
+			case 0: case 1: n = (!c.empty() && c[0] == '-') ? c.substr(1) : "-" + c; break;     // sign flip (most frequent)
+			case 2: n = "0"; break;
+			case 3: n = "1"; break;
+			case 4: n = "-1"; break;
+			case 5: n = std::string(hugechars, 'z'); break;
+			case 6: { const Field &o = f[g.below(f.size())]; n = v.substr(o.b, o.e - o.b); break; }   // copy of another field (e.g. element := modulus)
+			case 7: n = c + c; break;                                                         // a multiple-ish / longer value
+			default: n = ""; break;
+			}
+			r += n; at = f[i].e; d += ":f" + std::to_string(i) + "o" + std::to_string(op);
+		}
+		r += v.substr(at);
+		out.push_back({ r, d });
 	}
 	// truncation: at every offset when short, otherwise at every delimiter (+-1) and sampled offsets
 	if (v.size() <= ntrunc) { for (size_t i = 0; i < v.size(); i++) out.push_back({ v.substr(0, i), "trunc" + std::to_string(i) }); }
